@@ -1,4 +1,4 @@
 SPECIFICATION Spec
-CONSTANTS MaxN = 8 MaxR = 3 MaxTofMash = 3
+CONSTANTS MaxN = 6 MaxR = 3 MaxTofMash = 3 MaxRB = 5
 INVARIANTS Inv1 Inv2 Inv3 Inv4 Inv5 Inv6
 CHECK_DEADLOCK FALSE
